@@ -20,7 +20,10 @@ func isStruct(t types.Type) bool {
 }
 
 func typeKey(t types.Type) string {
-	// canonical struct name used in component names
+	// canonical name used in component names (byte and uint8, rune and int32 are the same type)
+	if b, ok := t.(*types.Basic); ok && int(b.Kind()) < len(types.Typ) && types.Typ[b.Kind()] != nil {
+		return types.Typ[b.Kind()].Name()
+	}
 	return mangleType(t)
 }
 
